@@ -204,7 +204,37 @@ def arith(ctx, fb):
                         div_guard = div_guard and g_ok
         ok = bins <= {bop} and traits == {bop}
         if ty == 'Div':
-            ok = ok and div_guard and n_div_const >= 1
+            # constants are folded with a zero-checked division: `x / y` under `y != 0`, or i32::checked_div; and only when
+            # the division is exact (remainder tested against 0) - the operands may be integer-valued *float* constants, for
+            # which the operator divides exactly (3.0 / 2.0 = 1.5, not 1)
+            folds, exact = [], False
+            for cf in cl:
+                rems = [c for c in cf.calls() if re.search(r'<impl i32>::checked_rem$', c.callee or '')]
+                rem_bins = [(i, st) for i, b in enumerate(cf.bbs) if not b.get('c') for st in b['s'] if st[0] == '=' and st[2][0] == 'bin' and st[2][1].startswith('Rem')]
+                for c in cf.calls():
+                    if re.search(r'<impl i32>::checked_div$', c.callee or ''):
+                        folds.append((cf, c.bb))
+                for i, b in enumerate(cf.bbs):
+                    if b.get('c') or i not in cf.live():
+                        continue
+                    for st in b['s']:
+                        if st[0] == '=' and st[2][0] == 'bin' and st[2][1].startswith('Div'):
+                            folds.append((cf, i))
+                for (ff, fbb) in [x for x in folds if x[0] is cf]:
+                    for g in cf.guards(fbb):
+                        cd = g.cond()
+                        if cd[0] == 'call' and any(o[0] == 'call' and re.search(r'checked_rem$', o[1] or '') for a in cd[1].args for o in cf.origins(a)):
+                            exact = True
+                        if cd[0] == 'cmp' and any(o[0] == 'binop' and str(o[1]).startswith('Rem') for x in (cd[2], cd[3]) for o in cf.origins(x)):
+                            exact = True
+                        if cd[0] == 'disc' and any(o[0] == 'call' and re.search(r'checked_rem$', o[1] or '') for o in cf.place_origins(cd[1] if isinstance(cd[1], list) else [cd[1]])):
+                            exact = True
+            bins.discard('Div'); bins.discard('Rem')
+            ok = not bins and traits == {bop} and bool(folds) and div_guard and exact
+            ctx.inst(R, 'op:' + ty, ok, 'shape_ops::Div folds constants only with a zero-checked division under a remainder == 0 test, and builds symbolic Div expressions otherwise' if ok else
+                     'shape_ops::Div folds constant operands %s: %s' % ('without a zero-checked division' if not (folds and div_guard) else 'without testing that the division is exact',
+                                                                         'a divisor of 0 panics' if not (folds and div_guard) else 'integer-valued float constants divide exactly at run time (3.0 / 2.0 = 1.5) while inference claims the truncated quotient, which the optimizer then substitutes'), f.loc())
+            continue
         ctx.inst(R, 'op:' + ty, ok, 'shape_ops::%s folds constants with %s and builds symbolic %s expressions%s' % (ty, bop, bop, ' (constant division only under divisor != 0)' if ty == 'Div' else '') if ok else
                  'shape_ops::%s applies %s to constants and %s to symbolic operands%s: inferred values would differ from execution' % (ty, sorted(bins), sorted(traits), '' if div_guard else ' (or divides without a non-zero test)'), f.loc())
 
